@@ -388,6 +388,38 @@ func VerifC01Generic() {
 	c01Check(g, limit, false)
 }
 
+// generic family, four nodes (thorough): every set of 2..4 of the 20 possible plain edges over a, b, c, d, optional
+// 2-way branch on a, symbolic step limit; graphs that do not compile are skipped
+func VerifC01Generic4() {
+	nodes := []string{"a", "b", "c", "d"}
+	g := &vG{nodes: nodes}
+	var cands [][2]string
+	for _, n := range nodes {
+		cands = append(cands, [2]string{START, n})
+	}
+	for _, n := range nodes {
+		for _, m := range nodes {
+			if n != m {
+				cands = append(cands, [2]string{n, m})
+			}
+		}
+		cands = append(cands, [2]string{n, END})
+	}
+	n := 0
+	for _, e := range cands {
+		if n < 4 && vchoose("edge", 2) == 1 {
+			g.edges = append(g.edges, e)
+			n++
+		}
+	}
+	vassume(n >= 2)
+	if vchoose("branch", 2) == 1 {
+		g.branches = []vBranch{{"a", []string{"b", END}}}
+	}
+	limit := vrange("limit", 3, 6)
+	c01Check(g, limit, false)
+}
+
 // one ChainBranch value appended to two chains (and the chains run independently)
 func VerifC01ChainBranchReuse() {
 	ctx := context.Background()
